@@ -1767,7 +1767,7 @@ class CodeGenerator(NodeVisitor):
     @optimizeconst
     def visit_Concat(self, node: nodes.Concat, frame: Frame) -> None:
         if frame.eval_ctx.volatile:
-            func_name = "(markup_join if context.eval_ctx.volatile else str_join)"
+            func_name = "(markup_join if context.eval_ctx.autoescape else str_join)"
         elif frame.eval_ctx.autoescape:
             func_name = "markup_join"
         else:
